@@ -44,6 +44,7 @@ from ._g8_helpers import (
     exc_successors,
     expand_local,
     lockset,
+    same_region,
 )
 
 META = {
@@ -404,6 +405,18 @@ def _return_worker(ctx: Ctx) -> None:
         ctx.check(not spurious, "RF-BOUND", "return:no-eviction-below-capacity", rw, ev_calls[0],
                   ok="while fewer than max_idle workers are idle the returned worker is simply added",
                   bad=f"with (max_idle, idle) = {spurious[:3]} the section evicts or drops although there is room")
+
+    # ---- atomicity: the capacity decision and the insertion it justifies form ONE critical section
+    decision: list[ast.AST] = [*ev_calls]
+    decision += [n.value for n in walk_scope(rw.node) if isinstance(n, (ast.Assign, ast.AnnAssign)) and n.value is not None and sim._is_total(n.value)]
+    decision += [n.test for n in walk_scope(rw.node) if isinstance(n, (ast.If, ast.While)) and any(isinstance(a, ast.Attribute) and a.attr == MAXIDLE for a in ast.walk(n.test))]
+    decision += [n.test for n in walk_scope(rw.node) if isinstance(n, (ast.If, ast.While)) and _mentions_idle(n.test) and any(isinstance(c, ast.Call) and isinstance(c.func, ast.Name) and c.func.id in ("sum", "len") for c in ast.walk(n.test))]
+    some(decision, "capacity decision (idle total / max_idle test / eviction) in _return_worker", rw)
+    region = same_region(ls, LOCK, [*decision, *insertions])
+    ctx.check(region is not None, "RF-LOCK", "return:capacity-test-and-insert-atomic", rw, insertions[0],
+              ok="the idle total, the max_idle test, the eviction and the insertion lie in one `with self._lock` section (no release in between)",
+              bad="the capacity decision (idle total / eviction) and the insertion it justifies are in different critical sections: two concurrent returns can both "
+              "pass the capacity test before either inserts, so more than max_idle workers end up idle")
 
     # ---- eviction helper: what it returns was removed
     ecfg = cfg_of(evict_fi.node)
